@@ -338,20 +338,33 @@ func translate(context Context, args ...Result) (Result, error) {
 	}
 
 	src := args[0].String()
-	old := args[1].String()
-	new := args[2].String()
+	old := []rune(args[1].String())
+	new := []rune(args[2].String())
 
-	for i := range old {
-		r := ""
+	// Every character is mapped once, by its first occurrence in old; it is
+	// removed when new has no character at that position.
+	ret := strings.Builder{}
 
-		if i < len(new) {
-			r = string(new[i])
+	for _, r := range src {
+		mapped := false
+
+		for i, o := range old {
+			if o == r {
+				if i < len(new) {
+					ret.WriteRune(new[i])
+				}
+
+				mapped = true
+				break
+			}
 		}
 
-		src = strings.Replace(src, string(old[i]), r, -1)
+		if !mapped {
+			ret.WriteRune(r)
+		}
 	}
 
-	return String(src), nil
+	return String(ret.String()), nil
 }
 
 func boolean(context Context, args ...Result) (Result, error) {
